@@ -64,6 +64,24 @@ def construct(ann, val, use_default, generic=False):
 
 
 FORMS = ("plain", "default", "generic", "generic-sub")
+_SWAP = {"pinst": "phollow", "phollow": "pinst", "pclass": "phollow", "int": "bool", "bool": "int", "state": "state2",
+         "state2": "state", "list": "tuple", "tuple": "list", "set": "fset", "fset": "set", "date": "datetime",
+         "datetime": "date", "func": "cls", "cls": "func", "none": "missing", "missing": "none"}
+
+
+def look_alikes(val):
+    """values easily mistaken for `val` by anything that remembers verdicts: the same Python class with another verdict
+    (two instances of one class, one with the protocol's method attached and one without), ==-equal values of another
+    type, the same elements in another container"""
+    k = val["k"]
+    out = []
+    if k in _SWAP:
+        out.append(dict(val, k=_SWAP[k]))
+    if val["xs"]:
+        first = val["xs"][0]
+        if first["k"] in _SWAP and first["k"] != "pair":
+            out.append(dict(val, xs=(dict(first, k=_SWAP[first["k"]]),) + tuple(val["xs"][1:])))
+    return out
 
 
 class ValuesDriver:
@@ -74,14 +92,25 @@ class ValuesDriver:
     def reset(self, init):
         self.ann, self.val = init["ann"], init["val"]
 
-    def apply(self, name, args):
-        assert name == "Construct"
+    def _all_forms(self, val):
         out = {}
         for form in FORMS:
-            if form == "default" and self.val["k"] == "missing":
+            if form == "default" and val["k"] == "missing":
                 continue  # MISSING as a default means "no default"
-            out[form] = construct(self.ann, self.val, form == "default",
+            out[form] = construct(self.ann, val, form == "default",
                                   {"generic": True, "generic-sub": "sub"}.get(form, False))
+        return out
+
+    def apply(self, name, args):
+        assert name == "Construct"
+        out = self._all_forms(self.val)
+        # the verdict belongs to the value: after the same classes have judged the value's look-alikes (same Python class,
+        # ==-equal, same shape) they judge the value itself exactly as before
+        for other in look_alikes(self.val):
+            self._all_forms(other)
+        again = self._all_forms(self.val)
+        if again != out:
+            return dict(out["plain"], verdict_depends_on_history=dict(first=out, again=again))
         first = out["plain"]
         differing = {f: o for f, o in out.items() if o != first}
         if differing:
@@ -94,7 +123,8 @@ class ValuesDriver:
 
 # ---- leg T: random terms beyond the enumerated sets (annotation depth up to 4), judged by TLC evaluating the same operators
 PLAIN_KINDS = ["complex", "range", "uuid", "date", "datetime", "time", "timedelta", "timezone", "path", "pattern"]
-LEAF_ANN = ["none", "bool", "int", "float", "str", "bytes", "any", "missing", "enum", "state", "callable", "type"] + PLAIN_KINDS
+LEAF_ANN = ["none", "bool", "int", "float", "str", "bytes", "any", "missing", "enum", "state", "callable", "type",
+            "proto"] + PLAIN_KINDS
 
 
 def A(k, xs=(), vs=()):
@@ -106,7 +136,8 @@ def V(k, p=0, xs=()):
 
 
 LEAF_VAL = [V("none"), V("bool", 0), V("bool", 1), V("int", 0), V("int", 1), V("float", 15), V("str", 1), V("str", 2),
-            V("bytes", 1), V("missing"), V("enumv", 1), V("state", 1), V("state2", 1), V("func", 1), V("cls", 1)] + \
+            V("bytes", 1), V("missing"), V("enumv", 1), V("state", 1), V("state2", 1), V("func", 1), V("cls", 1),
+            V("pclass", 1), V("pinst", 1), V("phollow", 1)] + \
            [V(k, 1) for k in PLAIN_KINDS]
 
 
@@ -138,7 +169,7 @@ def rand_val(rnd, a, depth=4):
     leaf = {"none": V("none"), "bool": V("bool", rnd.randint(0, 1)), "int": V("int", rnd.randint(0, 1)),
             "float": V("float", 15), "str": V("str", rnd.randint(1, 2)), "bytes": V("bytes", 1), "missing": V("missing"),
             "enum": V("enumv", 1), "state": V(rnd.choice(["state", "state2"]), 1), "callable": V(rnd.choice(["func", "cls"]), 1),
-            "type": V("cls", 1)}
+            "type": V("cls", 1), "proto": V(rnd.choice(["pclass", "pinst", "pinst", "phollow"]), 1)}
     if k in leaf:
         return leaf[k]
     if k in PLAIN_KINDS:
